@@ -180,7 +180,17 @@ impl Visitor<Diagnostic> for LibraryRenderer {
         node: &DurationLiteral,
     ) -> Result<Self::Value, Diagnostic> {
         // Always write out as milliseconds. The largest unit is allowed to be "out of range"
-        let val = format!("TIME#{}ms", node.interval.whole_milliseconds());
+        // and the part that is smaller than a millisecond is written as a fraction.
+        let nanoseconds = node.interval.whole_nanoseconds();
+        let sign = if nanoseconds < 0 { "-" } else { "" };
+        let whole = nanoseconds.unsigned_abs() / 1_000_000;
+        let fraction = nanoseconds.unsigned_abs() % 1_000_000;
+        let val = if fraction == 0 {
+            format!("TIME#{}{}ms", sign, whole)
+        } else {
+            let digits = format!("{:06}", fraction);
+            format!("TIME#{}{}.{}ms", sign, whole, digits.trim_end_matches('0'))
+        };
         self.write_ws(val.as_str());
         Ok(())
     }
